@@ -14,6 +14,9 @@ OUT = '<svg xmlns="http://www.w3.org/2000/svg" viewBox="0 0 100 100"><path d="M-
 SOURCES = [("emoji_u1f600.svg", SQ), ("emoji_u1f601.svg", OUT), ("emoji_u1f468_200d_1f469.svg", SQ.replace("red", "#123456"))]
 
 MASTER = '[axis.wght]\nname="Weight"\ndefault=400\n[master.regular]\nstyle_name="Regular"\nsrcs=["src/*.svg"]\n[master.regular.position]\nwght=400\n'
+# the same sources as two masters (a variable font): options must reach that font too
+MASTERS2 = ('[axis.wght]\nname="Weight"\ndefault=400\n[master.regular]\nstyle_name="Regular"\nsrcs=["src/*.svg"]\n[master.regular.position]\nwght=400\n'
+            '[master.bold]\nstyle_name="Bold"\nsrcs=["src2/*.svg"]\n[master.bold.position]\nwght=700\n')
 
 
 def toml_value(v):
@@ -161,6 +164,12 @@ def run_job(job):
             (sd / fn).write_text(text)
         filecfg = dict(BASE)
         filecfg.update(base)
+        tail = MASTER
+        if filecfg.pop("_two_masters", False):
+            tail = MASTERS2
+            (d / "src2").mkdir()
+            for fn, text in SOURCES:
+                (d / "src2" / fn).write_text(text.replace("L40,10 L40,40", "L44,10 L44,44"))
         args = []
         if mode in ("file", "both"):
             filecfg[field] = v_file
@@ -173,11 +182,11 @@ def run_job(job):
                 first[field] = earlier
             else:
                 first_args = flag_args(field, earlier)
-            (d / "cfg.toml").write_text("".join(f"{k} = {toml_value(v)}\n" for k, v in first.items()) + MASTER)
+            (d / "cfg.toml").write_text("".join(f"{k} = {toml_value(v)}\n" for k, v in first.items()) + tail)
             rc0, out0 = build.run_cli(["--build_dir", d / "build"] + first_args + [d / "cfg.toml"], cwd=d)
             if rc0 != 0:
                 return dict(field=field, mode=mode, earlier_value=earlier, exit=rc0, log=out0[-1000:]), None
-        (d / "cfg.toml").write_text("".join(f"{k} = {toml_value(v)}\n" for k, v in filecfg.items()) + MASTER)
+        (d / "cfg.toml").write_text("".join(f"{k} = {toml_value(v)}\n" for k, v in filecfg.items()) + tail)
         rc, out = build.run_cli(["--build_dir", d / "build"] + args + [d / "cfg.toml"], cwd=d)
         res = dict(field=field, mode=mode, file_value=v_file if mode in ("file", "both") else None, flag_value=v_flag if mode in ("flag", "both") else None, exit=rc)
         if earlier is not None:
@@ -316,6 +325,12 @@ def main(argv):
             (v1, e1), (v2, e2) = vals[0], vals[1]
             jobs.append((field, "flag", base, None, v2, e2, v1))
             jobs.append((field, "file", base, v1, None, e1, v2))
+        if field in ("keep_glyph_names", "family", "upem", "version_major"):
+            # ... and in a variable font (two masters)
+            b2 = dict(base, _two_masters=True, reuse_tolerance=-1.0)
+            (v1, e1), (v2, e2) = vals[0], vals[1]
+            jobs.append((field, "file", b2, v2, None, e2))
+            jobs.append((field, "flag", b2, None, v1, e1))
         if field == "keep_glyph_names":
             # ... and in the charstring flavours (names live in post for CFF2, in the CFF table for CFF)
             for fmt_, exp_off in (("cff2_colr_1", 3.0), ("cff_colr_1", 3.0), ("cff2_colr_0", 3.0)):
@@ -342,7 +357,8 @@ def main(argv):
         reruns = [j for j in jobs if len(j) > 6]
         cffs = [j for j in jobs if j[0] == "keep_glyph_names" and "output_file" in j[2]]
         vfs = [j for j in jobs if j[2].get("_two_masters")]
-        pick += reruns[:3] + cffs[:2] + [j for j in vfs if j[0] == "keep_glyph_names"][:2] + [j for j in vfs if j[0] != "keep_glyph_names"][:1]
+        vfs = [j for j in jobs if j[2].get("_two_masters") and j not in pick]
+        pick += reruns[:3] + cffs[:2] + [j for j in vfs if j[0] == "keep_glyph_names"][:2] + [j for j in vfs if j[0] != "keep_glyph_names"][:1] + [j for j in vfs if j[0] == "keep_glyph_names"][:2] + [j for j in vfs if j[0] != "keep_glyph_names"][:1]
         jobs = [j for n_, j in enumerate(pick) if j not in pick[:n_]]
     with ThreadPoolExecutor(max_workers=12) as ex:
         results = list(ex.map(run_job, jobs))
